@@ -122,6 +122,18 @@ fn main() {
                 ev.insert("obs".into(), obs);
                 ev.insert("panic".into(), json!(""));
             }
+            Ok(Err(msg)) if msg.starts_with("register ") && msg.contains(" is not ") => {
+                // an operand register holds nothing because an EARLIER call of the library returned None where the script (written for
+                // the specified behaviour) expected a value: that is data about the code under test, not a script error.  The event
+                // is recorded as "dangling" (the specification reports it) and the output register, if any, is left empty.
+                ev.insert("orig_op".into(), json!(op));
+                ev.insert("op".into(), json!("dangling"));
+                ev.insert("obs".into(), json!({"msg": msg}));
+                ev.insert("panic".into(), json!(""));
+                if let Some(o) = e.get("out").and_then(|x| x.as_str()) {
+                    ctx.set(o, Reg::None);
+                }
+            }
             Ok(Err(msg)) => {
                 eprintln!("driver: script error at line {i} ({op}): {msg}");
                 std::process::exit(2);
